@@ -414,10 +414,10 @@ def gen(rng, tier):
             letters = [l for l in letters if l not in "pq"]
         for n in range(0, depth + 1):
             for word in itertools.product(letters, repeat=n):
-                if tier == "quick" and n == depth and rng.random() > 0.3:
+                if tier == "quick" and n == depth and rng.random() > 0.05:
                     continue
                 cases.append({"delays": delays, "prep": prep, "ops": ["start"] + [ALPHA[l] for l in word]})
-        for n in range(1, 4):
+        for n in range(1, 3 if tier == "quick" else 4):
             for word in itertools.product(letters, repeat=n):
                 if word[0] != "s":
                     cases.append({"delays": delays, "prep": prep, "ops": [ALPHA[l] for l in word]})
@@ -512,9 +512,9 @@ SPEC = Spec(
     nontrivial=lambda c, o: ("O" in o and ("W" in o or "S" in o or "R" in o)),
     histogram=hist,
     rule="for three configurations (no hook; hook returning an unfired Deferred; hook raising on every other "
-         "connection): 'start' followed by every word of length <= 4 (quick, the longest length sampled 30%) / <= 5 "
+         "connection): 'start' followed by every word of length <= 4 (quick, the longest length sampled 5%) / <= 5 "
          "(thorough) over {start, stop, whenConnected(None), whenConnected(1), connect ok, connect fail, prepare ok, "
-         "prepare fail, drop oldest connection, advance 1s}, and every word of length <= 3 not starting with start; "
+         "prepare fail, drop oldest connection, advance 1s}, and every word of length <= 2 (quick) / 3 (thorough) not starting with start; "
          "plus random histories of 6-60 ops with random retry delays, hook modes, failure limits 0-3 and clock steps; "
          "non-trivial = a connection was opened and some waiter fired or a retry was scheduled; distinct by (case, observation)",
     trusted=["translator translate/c58.py (fail-closed extraction of the automat table from makeMachine)",
